@@ -17,7 +17,7 @@ def _numbering(draw, n, sparse):
 @st.composite
 def options(draw, deep=False, big=False):
     if deep:
-        return {"solution_limit": 10**6, "luby_factor": draw(st.sampled_from([1, 2])), "max_restarts": 10_000, "max_conflicts": 100_000}
+        return {"solution_limit": 10**6, "luby_factor": draw(st.sampled_from([1, 2, 100])), "max_restarts": 10_000, "max_conflicts": 100_000}
     return {
         "solution_limit": draw(st.sampled_from([1, 1, 1, 2, 3, 10, 100] + ([50] if big else [10**6]))),
         "luby_factor": draw(st.sampled_from([1, 2, 3, 10, 100])),
